@@ -15,6 +15,7 @@ import ast
 import os
 
 from .. import translate
+from . import normalize
 
 REL = "fairlearn/metrics/_disaggregated_result.py"
 
@@ -23,10 +24,15 @@ def U(msg):
     return translate.Untranslatable(f"{REL}: {msg}")
 
 
+ARG = "x"       # the bound variable of the emitted `ratioSubOne` (the Python argument may have any name)
+
+
 def expr(e, arg):
     """arithmetic on the argument -> Lean term of type XR"""
     if isinstance(e, ast.Name) and e.id == arg:
-        return arg
+        return ARG
+    if isinstance(e, ast.Constant) and isinstance(e.value, float) and e.value == int(e.value):
+        e = ast.Constant(int(e.value))         # `1.0 / x` is `1 / x` (true division)
     if isinstance(e, ast.Constant) and isinstance(e.value, int) and not isinstance(e.value, bool):
         return f"(XR.fin {e.value})" if e.value >= 0 else f"(XR.fin ({e.value}))"
     if isinstance(e, ast.UnaryOp) and isinstance(e.op, ast.USub):
@@ -59,14 +65,22 @@ def lift_sub_one(fn):
     if len(fn.args.args) != 1 or fn.args.kwonlyargs or fn.args.vararg or fn.args.kwarg:
         raise U("ratio_sub_one must take exactly one argument")
     arg = fn.args.args[0].arg
+    fn = normalize.inline_new_temporaries(fn, [])          # `t = e; return t`  ->  `return e`
     body = [s for s in fn.body if not (isinstance(s, ast.Expr) and isinstance(s.value, ast.Constant))]
+    # three spellings of one definition:  if c: return a  else: return b  |  if c: return a ; return b  |  return a if c else b
+    if len(body) == 2 and isinstance(body[0], ast.If) and not body[0].orelse and isinstance(body[1], ast.Return):
+        body = [ast.If(test=body[0].test, body=body[0].body, orelse=[body[1]])]
+    if len(body) == 1 and isinstance(body[0], ast.Return) and isinstance(body[0].value, ast.IfExp):
+        v = body[0].value
+        body = [ast.If(test=v.test, body=[ast.Return(value=v.body)], orelse=[ast.Return(value=v.orelse)])]
     if len(body) != 1 or not isinstance(body[0], ast.If):
         raise U("ratio_sub_one body is not a single if/else")
     node = body[0]
     if not (len(node.body) == 1 and isinstance(node.body[0], ast.Return) and len(node.orelse) == 1
-            and isinstance(node.orelse[0], ast.Return)):
+            and isinstance(node.orelse[0], ast.Return) and node.body[0].value is not None
+            and node.orelse[0].value is not None):
         raise U("ratio_sub_one branches are not plain returns")
-    return (f"def ratioSubOne ({arg} : XR) : XR :=\n  if {cond(node.test, arg)} then {expr(node.body[0].value, arg)} "
+    return (f"def ratioSubOne ({ARG} : XR) : XR :=\n  if {cond(node.test, arg)} then {expr(node.body[0].value, arg)} "
             f"else {expr(node.orelse[0].value, arg)}")
 
 
@@ -95,16 +109,20 @@ def match(term, pattern, what):
 def lift(repo):
     from . import aggregate_gen
     src = open(os.path.join(repo, REL)).read()
-    tree = ast.parse(src)
+    tree = normalize.parse(src)
     cls = next((n for n in tree.body if isinstance(n, ast.ClassDef) and n.name == "DisaggregatedResult"), None)
     if cls is None:
         raise U("class DisaggregatedResult not found")
     meth = {n.name: n for n in cls.body if isinstance(n, ast.FunctionDef)}
     if "difference" not in meth or "ratio" not in meth:
         raise U("difference/ratio not found")
-    sub = next((n for n in meth["ratio"].body if isinstance(n, ast.FunctionDef) and n.name == "ratio_sub_one"), None)
-    if sub is None:
-        raise U("nested function ratio_sub_one not found")
+    # exactly one definition: nested in `ratio`, or hoisted to module level under the same name
+    subs = [n for n in ast.walk(meth["ratio"]) if isinstance(n, ast.FunctionDef) and n.name == "ratio_sub_one"]
+    top = [n for n in tree.body if isinstance(n, ast.FunctionDef) and n.name == "ratio_sub_one"]
+    bound = sum(1 for n in ast.walk(tree) if isinstance(n, ast.Name) and n.id == "ratio_sub_one" and not isinstance(n.ctx, ast.Load))
+    if len(subs) + len(top) != 1 or bound or (subs and subs[0] not in meth["ratio"].body):
+        raise U(f"expected exactly one function ratio_sub_one (nested in ratio, or at module level), found {len(subs)} + {len(top)}")
+    sub = (subs + top)[0]
     sub_one = lift_sub_one(sub)
     # The grouping constants are read off the symbolically executed method bodies (lifters/aggregate_gen.py: local
     # variable names and statement order do not matter), in both control-feature worlds, which must agree.
